@@ -160,8 +160,11 @@ type regSession struct {
 // regGen makes the interval set of session sid. Kinds cycle so that every run has all of them.
 func regGen(sid int) regSession {
 	r := newRand(int64(sid) + 16000)
-	kinds := []string{"dense", "wide", "extreme", "nested", "touching", "mismatch", "allempty", "mixed", "duplicates", "tiny"}
+	kinds := []string{"dense", "wide", "extreme", "nested", "touching", "mismatch", "allempty", "mixed", "duplicates", "tiny", "powers"}
 	kind := kinds[sid%len(kinds)]
+	if thorough() && sid == 12 {
+		kind = "massive"
+	}
 	n := r.Intn(201)
 	if sid%3 == 0 {
 		n = 150 + r.Intn(51)
@@ -260,6 +263,40 @@ func regGen(sid int) regSession {
 			b := base[r.Intn(m)]
 			put(b[0], b[1])
 		}
+	case "powers": // coordinates next to powers of two (what fits a machine word of 8, 16, 31, 32, 53 bits and what just does not); in two
+		// sessions out of three all of them non-negative and below 2^32
+		ps := []int{7, 8, 15, 16, 24, 31, 32, 33, 53, 62}
+		if sid%3 != 0 {
+			ps = []int{8, 16, 24, 31, 31, 31, 32}
+		}
+		pt := func() int {
+			x := 1<<ps[r.Intn(len(ps))] + r.Intn(7) - 3
+			if r.Intn(4) == 0 {
+				x += r.Intn(1 << 20)
+			}
+			if sid%3 != 0 {
+				x = min(x, 1<<32-1)
+			} else if r.Intn(6) == 0 {
+				x = -x
+			}
+			return x
+		}
+		for i := 0; i < n; i++ {
+			a, b := pt(), pt()
+			if a > b && r.Intn(5) > 0 {
+				a, b = b, a
+			}
+			put(a, b)
+		}
+	case "massive": // more intervals over one position than 16 bits can count
+		c := r.Intn(1000)
+		for i := 0; i < 66000+r.Intn(3000); i++ {
+			put(c-1-i%3, c+1+i%5)
+		}
+		for i := 0; i < 50; i++ {
+			x := c + r.Intn(40) - 20
+			put(x, x+r.Intn(9)-2)
+		}
 	case "tiny":
 		n = r.Intn(4)
 		for i := 0; i < n; i++ {
@@ -317,6 +354,17 @@ func regQueries(s regSession) []int {
 			}
 			if x < regMaxInt {
 				add(x + 1)
+			}
+		}
+	}
+	if s.kind == "powers" { // the positions an endpoint would alias to if its upper bits were lost
+		for _, x := range append(regCpInts(s.starts), s.ends...) {
+			for _, d := range []int{1 << 31, 1 << 32, 1 << 16} {
+				if x >= 0 && x < 1<<62 {
+					add(x + d)
+					add(x - d)
+					add(x % d)
+				}
 			}
 		}
 	}
